@@ -216,6 +216,15 @@ def main(prop, level, run, argv=None):
         from .srcmodel import Repo
         repo = Repo()
         run(ctx, repo)
+        if tier == 'thorough' and not os.environ.get('SA_NO_MODELCHECK'):
+            from . import modelcheck
+            try:
+                modelcheck.cross_validate(ctx, repo)
+            except AnalysisError as e:
+                # a model mismatch never hides a violation that the rules already report
+                if not ctx.findings:
+                    raise
+                ctx.extra['model_cross_validation'] = 'mismatch (reported next to the findings, not instead of them): %s' % e
         if only_key is not None:
             ctx.findings = [f for f in ctx.findings
                             if f.rule == only_key.get('rule') and f.key == only_key.get('key')]
